@@ -176,3 +176,76 @@ pub(crate) fn on_f_eval<F: PrimeField>(f_eval: &F) {
 pub(crate) fn on_v<F: PrimeField>(v: &F) {
     with_last(|t| t.v = repr(v));
 }
+
+/// One call of `multi_open` as seen by the (observe-only) prover trace: the coefficient vectors
+/// of its intermediate polynomials, as the bytes of the canonical representation of every
+/// coefficient. A call that returns early leaves the fields it did not reach empty.
+#[derive(Clone, Debug, Default, PartialEq, Eq)]
+pub struct VerifOpenTrace {
+    /// `q_polys`: one `x1`-combined polynomial per point set.
+    pub q_polys: Vec<Vec<Vec<u8>>>,
+    /// `f_poly`.
+    pub f_poly: Vec<Vec<u8>>,
+    /// `final_poly`.
+    pub final_poly: Vec<Vec<u8>>,
+    /// `v`, the value of `final_poly` at `x3`.
+    pub v: Vec<u8>,
+    /// `pi_poly`.
+    pub pi_poly: Vec<Vec<u8>>,
+}
+
+thread_local! {
+    static OPEN_ON: std::cell::Cell<bool> = const { std::cell::Cell::new(false) };
+    static OPEN: std::cell::RefCell<Vec<VerifOpenTrace>> = const { std::cell::RefCell::new(Vec::new()) };
+}
+
+/// Switches the `multi_open` trace of this thread on or off (and empties it).
+pub fn verif_open_trace_on(on: bool) {
+    OPEN_ON.with(|t| t.set(on));
+    OPEN.with(|t| t.borrow_mut().clear());
+}
+
+/// Removes and returns the `multi_open` records traced on this thread.
+pub fn verif_take_open_trace() -> Vec<VerifOpenTrace> {
+    OPEN.with(|t| std::mem::take(&mut *t.borrow_mut()))
+}
+
+fn with_last_open(f: impl FnOnce(&mut VerifOpenTrace)) {
+    if OPEN_ON.with(|t| t.get()) {
+        OPEN.with(|t| {
+            if let Some(last) = t.borrow_mut().last_mut() {
+                f(last)
+            }
+        });
+    }
+}
+
+/// Called once the `q_polys` of `multi_open` exist (opens a record).
+pub(crate) fn on_open_q_polys<F: PrimeField>(q_polys: &[&[F]]) {
+    if OPEN_ON.with(|t| t.get()) {
+        OPEN.with(|t| {
+            t.borrow_mut().push(VerifOpenTrace {
+                q_polys: q_polys.iter().map(|p| p.iter().map(repr).collect()).collect(),
+                ..Default::default()
+            })
+        });
+    }
+}
+
+/// Called with `f_poly`.
+pub(crate) fn on_open_f_poly<F: PrimeField>(f_poly: &[F]) {
+    with_last_open(|t| t.f_poly = f_poly.iter().map(repr).collect());
+}
+
+/// Called with `final_poly` and `v`.
+pub(crate) fn on_open_final<F: PrimeField>(final_poly: &[F], v: &F) {
+    with_last_open(|t| {
+        t.final_poly = final_poly.iter().map(repr).collect();
+        t.v = repr(v);
+    });
+}
+
+/// Called with `pi_poly`.
+pub(crate) fn on_open_pi_poly<F: PrimeField>(pi_poly: &[F]) {
+    with_last_open(|t| t.pi_poly = pi_poly.iter().map(repr).collect());
+}
